@@ -2,7 +2,7 @@
 From Coq Require Import List Bool.
 Import ListNotations.
 From Mos Require Import Str Xml Outcome Seq Spec Elements Classify Messages Merge Proto.
-From Mos.proofs Require Import Frame.
+From Mos.proofs Require Import Frame ItemFacts.
 
 (* Story-level merges: every child of roCreate that is not a story whose ID the message
    names or carries - metadata, other stories with everything inside them - keeps identical
@@ -44,3 +44,19 @@ Theorem C03_frame_metadata :
   = filter (fun c => negb (md_matched srcs c)) kids.
 Proof. exact metadata_frame. Qed.
 Print Assumptions C03_frame_metadata.
+
+(* ... and inside the addressed story: every child that is not an item the message names or
+   carries - paragraphs, metadata, the other items - keeps identical content and relative
+   order (moves and swaps: where the order theorem applies) *)
+Theorem C03_frame_inside_story :
+  forall (o : oracles) (k : mclass) (m b rc : xml) (i : nat) (s : xml),
+  is_item_class k = true -> schema_ok k m = true -> base_of k m = Some b ->
+  find_story (addressed_story k b) (kids_of rc) = FFound i -> nth_error (kids_of rc) i = Some s ->
+  no_bad ikey (kids_of s) = true ->
+  (forall ks,
+     (k = ItemMoveMultiple \/ k = EAItemMove \/ k = EAItemSwap) ->
+     NoDup (item_ids s) /\ proto_item k b (item_ids s) = Some ks) ->
+  exists ik', r_st (merge_kids o k m b rc) = update_nth i (fun s' => set_kids s' ik') (kids_of rc) /\
+    untouched ikey (item_touch_ids k b) ik' = untouched ikey (item_touch_ids k b) (kids_of s).
+Proof. exact item_frame. Qed.
+Print Assumptions C03_frame_inside_story.
